@@ -142,3 +142,16 @@ def table_reversal(n):
 
 def table_latin(n, s):
     return [list(PERMS[(v + s) % 24]) for v in range(n)]
+
+
+def rule_walk(G, start, n, a=7, b=3):
+    """Deterministic long walk: at step i take live arc number (a*i + b) mod out-degree."""
+    v, out = start, []
+    for i in range(n):
+        live = O.outs(G, v)
+        if not live:
+            break
+        j = live[(a * i + b) % len(live)]
+        out.append(NUC[j])
+        v = G[v][j]
+    return ''.join(out)
